@@ -14,6 +14,8 @@ import (
 	"github.com/containerd/nri/pkg/api"
 	"github.com/containerd/nri/pkg/net/multiplex"
 	"github.com/containerd/ttrpc"
+	"google.golang.org/grpc/codes"
+	"google.golang.org/grpc/status"
 
 	"nriverif/fx"
 )
@@ -244,22 +246,26 @@ type rawMode struct {
 // connection without configuring it, registers it and stays silent, never answers at all, or
 // completes the handshake itself with the scripted timeouts in its ConfigureRequest.
 type refuser struct {
-	conn    net.Conn
-	mux     multiplex.Mux
-	rpcs    *ttrpc.Server
-	rpcl    net.Listener
-	rpcc    *ttrpc.Client
-	plugin  api.PluginService
-	mode    rawMode
-	regs    atomic.Int32
-	cfgSent atomic.Bool // the Configure request has been issued
-	sendMu  sync.Mutex
-	sent    map[int]bool // extra requests already sent (by index)
-	sentLog []string     // what was sent and how it was answered
-	cfgErr  atomic.Value // error text of the Configure / Synchronize call, if any
-	done    chan struct{}
-	quit    chan struct{} // closed by close(): releases a silent RegisterPlugin
-	once    sync.Once
+	conn        net.Conn
+	mux         multiplex.Mux
+	rpcs        *ttrpc.Server
+	rpcl        net.Listener
+	rpcc        *ttrpc.Client
+	plugin      api.PluginService
+	mode        rawMode
+	regs        atomic.Int32
+	cfgSent     atomic.Bool // the Configure request has been issued
+	sendMu      sync.Mutex
+	sent        map[int]bool // extra requests already sent (by index)
+	sentLog     []string     // what was sent and how it was answered
+	cfgReqs     int          // extra Configure requests sent
+	cfgAnswered atomic.Int32 // Configure requests (the first one included) answered without an error
+	unanswered  []string     // Configure requests that got neither a response nor an error within the bound
+	busy        atomic.Int32 // extra requests under way
+	cfgErr      atomic.Value // error text of the Configure / Synchronize call, if any
+	done        chan struct{}
+	quit        chan struct{} // closed by close(): releases a silent RegisterPlugin
+	once        sync.Once
 }
 
 func (r *refuser) RegisterPlugin(context.Context, *api.RegisterPluginRequest) (*api.Empty, error) {
@@ -289,6 +295,11 @@ func (r *refuser) handshake() {
 	ctx, cancel := context.WithTimeout(context.Background(), 5*time.Second)
 	defer cancel()
 	r.cfgSent.Store(true)
+	defer func() {
+		if r.cfgErr.Load() == nil {
+			r.cfgAnswered.Add(1)
+		}
+	}()
 	_, err := r.plugin.Configure(ctx, &api.ConfigureRequest{
 		RuntimeName:         "verif-raw",
 		RuntimeVersion:      "0",
@@ -325,7 +336,12 @@ func (r *refuser) sendExtras(at string) {
 		if done {
 			continue
 		}
-		ctx, cancel := context.WithTimeout(context.Background(), 2*time.Second)
+		r.busy.Add(1)
+		d := 2 * time.Second
+		if sd.Req == "configure" {
+			d = slack // every Configure request is answered: judged, see unanswered
+		}
+		ctx, cancel := context.WithTimeout(context.Background(), d)
 		var err error
 		switch sd.Req {
 		case "shutdown":
@@ -343,7 +359,18 @@ func (r *refuser) sendExtras(at string) {
 		cancel()
 		r.sendMu.Lock()
 		r.sentLog = append(r.sentLog, fmt.Sprintf("%s %s: %v", at, sd.Req, err))
+		if sd.Req == "configure" {
+			r.cfgReqs++
+			switch {
+			case err == nil:
+				r.cfgAnswered.Add(1)
+			case errors.Is(err, context.DeadlineExceeded) || status.Code(err) == codes.DeadlineExceeded:
+				// neither a response nor an error of the stub's or the connection's arrived
+				r.unanswered = append(r.unanswered, fmt.Sprintf("Configure request #%d of the session (%s)", r.cfgReqs+1, at))
+			}
+		}
 		r.sendMu.Unlock()
+		r.busy.Add(-1)
 	}
 }
 
